@@ -1,22 +1,25 @@
 #!/bin/bash
 # Build the framework from files on disk only (offline): Lean library, theorem modules, drivers, Go harnesses.
+# Only properties claimed in MANIFEST.json are built (work in progress for others may sit in the tree).
 set -e
 cd "$(dirname "$0")"
 export GOFLAGS=-mod=mod GOPROXY=off GOSUMDB=off GOTOOLCHAIN=local
 mkdir -p .build/bin replays evidence
 cp /repo/go.sum go/go.sum
-targets=$(python3 - <<'PY'
-import json,glob
-t=[]
-for p in sorted(glob.glob('props/C*.json')):
-    c=json.load(open(p))
-    if c.get('disabled'): continue
+eval "$(python3 - <<'PY'
+import json
+m=json.load(open('MANIFEST.json'))
+ids=[c['property_id'] for c in m['checks']]
+t=[];h=[]
+for i in ids:
+    c=json.load(open('props/%s.json'%i))
     if c.get('driver'): t.append(c['driver'])
     t += c.get('lake_targets') or ([c['props_module']] if c.get('props_module') else [])
-print(' '.join(dict.fromkeys(t)))
+    if c.get('harness'): h.append('./cmd/'+c['harness'])
+print('targets="%s"; harnesses="%s"' % (' '.join(dict.fromkeys(t)), ' '.join(dict.fromkeys(h))))
 PY
-)
+)"
 # generated sources are committed as snapshots, so the Lean side builds before any harness has run
 (cd lean && lake build YouVerif $targets)
-(cd go && go build -tags verif -o ../.build/bin/ ./cmd/...)
+if [ -n "$harnesses" ]; then (cd go && go build -tags verif -o ../.build/bin/ $harnesses); fi
 echo "setup ok"
